@@ -294,23 +294,29 @@ def rule_r3(prog, res) -> None:
                 continue
             n += 1
             res.touch(m)
-            cfg = cfg_of(m.node)
-            rets = [nd for nd in cfg.nodes if nd.kind == "stmt" and isinstance(nd.ast, ast.Return) and nd.ast.value is not None and not (isinstance(nd.ast.value, ast.Name) and nd.ast.value.id in ("NotImplemented", "self"))]
-            checks = []
-            for nd in cfg.nodes:
-                for c in nd.calls():
-                    if isinstance(c.func, ast.Attribute) and c.func.attr == "is_compatible":
-                        r = kwarg(c, "require")
-                        if isinstance(r, ast.Constant) and r.value is True:
-                            checks.append(nd)
-                if nd.kind == "test" and ("other" in unparse(nd.expr)) and any(isinstance(o, (ast.NotEq, ast.Eq)) for x in ast.walk(nd.expr) if isinstance(x, ast.Compare) for o in x.ops):
-                    if any(raise_dominated_by(cfg, b) for b in branch_nodes_of(cfg, nd).values()):
-                        checks.append(nd)
-            bad = [r for r in rets if not any(cfg.dominates(c, r) for c in checks)]
+            # decided on the symbolic store (private helpers such as a shared _combine(other, op) looked through): every
+            # path that returns a newly built container has called is_compatible(other, require=True) before — or has
+            # passed a comparison of the operands whose other outcome raises
+            from .. import symx
+
+            paths = symx.explore(prog, m, inline=symx.inline_private_helpers(prog, public={"is_compatible"}))
+            rets = [p for p in paths if p.outcome == "return" and p.value is not None and not (isinstance(p.value, ast.Name) and p.value.id in ("NotImplemented", "self")) and not (isinstance(p.value, ast.Constant))]
+            other_p = m.param_names()[1] if len(m.param_names()) > 1 else "other"
+            bad = []
+            for p in rets:
+                checked = any(isinstance(ev.expr.func, ast.Attribute) and ev.expr.func.attr == "is_compatible" and isinstance(kwarg(ev.expr, "require"), ast.Constant) and kwarg(ev.expr, "require").value is True for ev in p.calls("is_compatible"))
+                if not checked:
+                    for t, pol_, _ in symx.raising_guards(paths, p):
+                        if any(isinstance(x, ast.Compare) and any(isinstance(o, (ast.NotEq, ast.Eq)) for o in x.ops) for x in ast.walk(t)) and symx.mentions(t, lambda y: isinstance(y, ast.Name) and y.id == other_p):
+                            checked = True
+                if not checked:
+                    bad.append(p)
             if bad:
-                res.violation("C17.R3", m, bad[0].ast, f"{ci.name}.{op} builds its result without a dominating raising compatibility check: containers with different binning / patches are combined silently", key_extra=f"{op}-no-compat-check")
+                res.violation("C17.R3", m, bad[0].node or m.node, f"{ci.name}.{op} builds its result without a preceding raising compatibility check: containers with different binning / patches are combined silently", key_extra=f"{op}-no-compat-check")
+            elif not rets:
+                raise AnalysisError(f"C17.R3: {ci.name}.{op} has no path that returns a result")
             else:
-                res.ok("C17.R3", res.site(m), "is_compatible(other, require=True) (or a raising comparison) dominates the result")
+                res.ok("C17.R3", res.site(m), f"is_compatible(other, require=True) (or a raising comparison) precedes the result on all {len(rets)} path(s)")
     if n < 5:
         raise AnalysisError(f"C17.R3: only {n} binary operators found, minimum 5")
     k = 0
